@@ -4,6 +4,7 @@ import StepModel.P21.LexGap
 import StepModel.P21.FloatShape
 import StepModel.P21.FloatRead
 import StepModel.P21.FloatSeventeen
+import StepModel.P21.FloatNearest
 import StepModel.P21.AggrLemmas
 import StepModel.P21.RtsLemmas
 import StepModel.Generated.P21RWGen
@@ -1107,6 +1108,25 @@ theorem C09_writer_real_round_trips_source (lookup : Int → RefLookup) (nullabl
   have hops : dblOpsOf Generated.writeRealRoundTrips = dblOpsRT := by rw [hrt]; rfl
   rw [hops]
   exact C09_writer_real_round_trips Generated.lexCfg lookup nullable bits hlt hfin hnn (Or.inl (by decide)) sp rest d hsp hd
+
+/-- **The value a REAL / NUMBER token is read to is a nearest double.**  The accept and never-silent theorems say that a token
+    is read to `ops.ofDecimal d`, `d` the decimal it denotes (`denoteReal`).  For the executable float model that conversion is
+    round-to-nearest: whatever `Dbl.ofDecimal` returns for `M · 10^E` (`M > 0`) is sign + the encoding of some `m · 2^e`
+    (`m < 2^53`, `−1074 ≤ e`, finite, below `2^52` only at the subnormal exponent) with `|M·10^E − m·2^e| ≤ 2^e / 2` — or the
+    signed zero, for a decimal below `10^-330` (underflow counts as rounding); the other direction is `ofRatio_round` (a rational
+    strictly within half a unit of a double is converted to it), the overflow verdict (`none`) is the reader's "not
+    representable".  `M = 0` gives the signed zero (`C09_real_zero_value`). -/
+theorem C09_real_value_is_nearest_double (dec : Decimal) (hM : 0 < dec.mant) (b : Nat) (h : dblOps.ofDecimal dec = some b) :
+    (b = (if dec.neg then Dbl.signBit else 0) ∧ (dec.mant : Rat) * zp 10 dec.exp < zp 10 (-330)) ∨
+    ∃ (m : Nat) (e : Int), -1074 ≤ e ∧ e + 1075 < 2047 ∧ m < 2 ^ 53 ∧ (m < 2 ^ 52 → e = -1074) ∧
+      b = (if m < 2 ^ 52 then m else (e + 1075).toNat * 2 ^ 52 + (m - 2 ^ 52)) + (if dec.neg then Dbl.signBit else 0) ∧
+      2 * ((dec.mant : Rat) * zp 10 dec.exp) ≤ (2 * (m : Rat) + 1) * zp 2 e ∧
+      (2 * (m : Rat) - 1) * zp 2 e ≤ 2 * ((dec.mant : Rat) * zp 10 dec.exp) :=
+  ofDecimal_nearest dec hM b h
+
+theorem C09_real_zero_value (neg : Bool) (E : Int) : dblOps.ofDecimal ⟨neg, 0, E⟩ = some (if neg then Dbl.signBit else 0) := by
+  show Dbl.ofDecimal ⟨neg, 0, E⟩ = _
+  simp [Dbl.ofDecimal]
 
 /-- … and for the 15-digit writer (`dblOps`, the unrepaired `WriteReal` and `asStr`): `hstable` of
     `C09_writer_real_reads_back_model` reduced the same way — the written token reads back to the value whenever the double's 15
